@@ -371,9 +371,21 @@ class _P(object):
             args.append(self.not_expr())
         return args[0] if len(args) == 1 else Where("and", args=args)
 
+    NEG_CMP = {"=": "!=", "!=": "=", "<": ">=", ">": "<=", "<=": ">", ">=": "<"}
+
     def not_expr(self):
         if self.eat_kw("NOT"):
-            return Where("not", args=[self.not_expr()])
+            inner = self.not_expr()
+            # NOT over a leaf comparison is the complementary comparison
+            # (NOT `flag`  ==  `flag` = 0)
+            if inner.op == "cmp" and inner.cmpop in self.NEG_CMP:
+                return Where("cmp", col=inner.col, cmpop=self.NEG_CMP[inner.cmpop],
+                             value=inner.value)
+            if inner.op == "isnull":
+                return Where("notnull", col=inner.col)
+            if inner.op == "notnull":
+                return Where("isnull", col=inner.col)
+            return Where("not", args=[inner])
         return self.pred()
 
     def pred(self):
@@ -543,7 +555,8 @@ class _P(object):
                 self.i += 2
                 if not self.eat_punct("*"):
                     if not self.at_punct(")"):
-                        self.ident()
+                        self.eat_kw("DISTINCT")
+                        self.qcol()       # COUNT(col) / COUNT(t.col)
                 self.expect_punct(")")
                 c = "COUNT()"
                 if self.eat_kw("AS"):
